@@ -42,8 +42,11 @@ Section C02.
        proved here.
      - FASTSET, FASTSETATTR, FASTSETINT: the operand stack is not empty.  On an empty stack both sides are
        SStuck with different diagnostic strings (nothing else differs); compiled code never underflows (C07).
-     - FASTGETINT, FASTSETINT: the PUSH constant fits int32 (PUSH gives an untyped constant, the fused
-       instruction an int32 key); outside int32 the keys differ.
+     - FASTGETINT, FASTSETINT: no guard any more.  Until /repo commit a70e696 the fused instruction built its key
+       with Int() (int32) where PUSH gives an untyped constant, and this theorem carried the guard "the constant
+       fits int32"; that guard marked a GENUINE difference (on a local map[uint32]int a key above MaxInt32 was
+       wrapped with the optimizer on), which is fixed: both sides now use the key PUSH pushes.  Lesson recorded in
+       DESIGN.md: a guard the optimizer itself does not check is a finding, not a side condition.
      - FASTCALLATTR: both CALL operands are < 2^16 (they are packed into the halves of one operand); a call
        with more than 65535 arguments or results would be mis-encoded.
      - PUSH n; ADD / PUSH n; SUB -> INCDEC: sign conditions on n that keep the proof free of floating-point
@@ -58,7 +61,7 @@ Section C02.
     forall codes pc pc' slots ops s, guard r w slots ops = true ->
       sres_equiv (run_window grow ext_get ext_set ext_len ext_getattr ext_setattr codes pc w slots ops s)
                  (step1 grow ext_get ext_set ext_len ext_getattr ext_setattr codes pc' (fused r w) slots ops s).
-  Proof. exact (c02_rule_sound grow ext_get ext_set ext_len ext_getattr ext_setattr ext_get_key ext_set_key). Qed.
+  Proof. exact (c02_rule_sound grow ext_get ext_set ext_len ext_getattr ext_setattr). Qed.
 
   (* the guards are satisfiable for every rule *)
   Theorem c02_guards_satisfiable : forall r, In r peephole_rules ->
